@@ -41,6 +41,7 @@ Hypothesis phi_inj : forall x y, phi x = phi y -> x = y.
 Hypothesis Hdec : forall x, p_dec PS e (phi x) = p_dec PM e x.
 Hypothesis Hjoin : forall rows sep k, map phi (p_join PM rows sep k) = p_join PS (map (map phi) rows) (phi sep) k.
 Hypothesis Hsplit : forall s sep, map (map phi) (p_split PM s sep) = p_split PS (map phi s) (phi sep).
+Hypothesis Hsplitl : forall s seps, map (map phi) (p_splitl PM s seps) = p_splitl PS (map phi s) (map phi seps).
 Hypothesis Hstreq : forall rows s, p_streq PM rows s = p_streq PS (map (map phi) rows) (map phi s).
 Hypothesis Hstreq2 : forall rows l, p_streq2 PM rows l = p_streq2 PS (map (map phi) rows) (map (map phi) l).
 Hypothesis Hrslice : forall rows st en,
@@ -158,7 +159,8 @@ Definition part_chars (p : part) : list Z :=
 Definition op_chars (o : op) : list Z :=
   match o with
   | Eq p _ | SetRow _ p | SetRC _ _ _ _ p | SetIdx _ p => operand_chars p
-  | MaskEq c _ | SetElem _ _ c | SetRCol _ _ c | Join c _ | Split c => [c]
+  | MaskEq c _ | SetElem _ _ c | SetRCol _ _ c | Join c _ | Split c | SetRows2D _ _ c => [c]
+  | SplitL seps => seps
   | SetMaskEq c c2 => [c; c2]
   | SetRows _ l | StrEq2 l => concat l
   | Concat ps | Stack ps => flat_map part_chars ps
@@ -324,6 +326,9 @@ Proof.
     destruct (prep_rows PM e l) as [l'|]; fin. rewrite Hstreq2. reflexivity.
 Qed.
 
+Lemma rows2d_map k s : rows2d k (map phi s) = map (map phi) (rows2d k s).
+Proof. unfold rows2d. rewrite len_map, map_map. apply map_ext. intros i. apply gather_map. Qed.
+
 Lemma where_map : forall (m : list bool) s t,
   map2 (fun (b : bool) (xy : Z * Z) => if b then fst xy else snd xy) m (combine (map phi s) (map phi t))
   = map phi (map2 (fun (b : bool) (xy : Z * Z) => if b then fst xy else snd xy) m (combine s t)).
@@ -369,6 +374,15 @@ Proof.
     rewrite prep_str_rel by (intros; apply Hc; assumption).
     destruct (prep_str PM e s0); fin. rewrite where_map. reflexivity.
   - (* Split *) relc Hc sep. destruct (p_prep PM e sep) as [sep'|]; fin. rewrite Hsplit. reflexivity.
+  - (* SplitL *) destruct seps as [|sp seps]; [fin|].
+    rewrite prep_str_rel by (intros; apply Hc; assumption).
+    destruct (prep_str PM e (sp :: seps)) as [seps'|]; fin. rewrite Hsplitl. reflexivity.
+  - (* Rows2D *) destruct ((0 <? k) && (len s mod k =? 0)); [|fin].
+    destruct (sel_pos (len s / k) s0) as [pos|]; fin.
+    rewrite rows2d_map, gather_map, concat_map. reflexivity.
+  - (* SetRows2D *) destruct ((0 <? k) && (len s mod k =? 0)); [|fin].
+    destruct (sel_pos (len s / k) s0) as [pos|]; [|fin]. destruct (negb (nodupb pos)); [fin|].
+    relc Hc c. destruct (p_prep PM e c) as [c'|]; fin. rewrite <- map_repeat, scatter_map. reflexivity.
   - (* Stack *) rewrite parts_stack_map. destruct (parts_stack s ps) as [[|r rs]|]; fin.
 Qed.
 
